@@ -286,11 +286,11 @@ func c13ServedMain(e *Env) (*res.Result, error) {
 		n = 240
 	}
 	disabled := disabledTags()
-	forms := specgen.BaseForms()
+	nextForm := formWalker(e, specgen.BaseForms())
 	hostile := []string{"`", "a`b\n", "\"quoted\"", `back\slash`, "tab\there", "line1\r\nline2\r\n", "no newline at end", "\ufeffwith bom\n", "`+\"`\"+`", "${x} $$ `\n`", "multi\nline\n", "\r", "a\\nb", "x\n\"y\"\n`z`\n\\", "100% off\n", "%s %d %v %% %!(EXTRA)", "q=red%20shoes&x=%2F\n"}
 	specs := collect(e, "C13", n, func(t *rapid.T) PkgSpec {
 		c := specgen.NewCtx(t, disabled)
-		bf := rapid.SampledFrom(forms).Draw(t, "baseform")
+		bf := nextForm()
 		d := c.RouterDoc(specgen.RouterOpts{MaxN: 4, MaxDepth: 3})
 		// a root-level catch-all template that can match the spec path
 		hasRootVar := false
